@@ -57,9 +57,21 @@ type RWMutex struct {
 
 func (m *RWMutex) Lock() {
 	sched.Point(sched.OpLock, sched.KRW, &m.st, unsafe.Pointer(m))
+	// writer preference as in the real RWMutex: from here on new readers wait; if readers hold the
+	// lock the writer waits for them at a second scheduling point
+	sched.HideBegin()
+	readers := m.st.B.Load() > 0
+	if readers {
+		m.st.W.Store(1)
+	}
+	sched.HideEnd()
+	if readers {
+		sched.Point(sched.OpLockWait, sched.KRW, &m.st, unsafe.Pointer(m))
+	}
 	m.mu.Lock()
 	sched.HideBegin()
 	m.st.A.Store(1)
+	m.st.W.Store(0)
 	sched.HideEnd()
 }
 
